@@ -117,6 +117,16 @@ class Model:
         occ=self.occ[:,opidx] if len(opidx) else np.zeros((self.D,0))
         with np.errstate(all='ignore'):
             out=np.array([complex(f(*[np.float64(x) for x in row])) for row in occ]) if syms else np.full(self.D,complex(c))
+            if syms and not np.all(np.isfinite(out)):
+                # removable singularities (0/0: a vanishing energy denominator multiplied by vanishing number factors,
+                # e.g. N(N-1).../(3N)): evaluate symmetrically next to the integer point; a genuine pole changes sign /
+                # blows up there and stays non-finite
+                eps=np.array([1e-5*(1+0.37*k) for k in range(occ.shape[1])])
+                for idx in np.where(~np.isfinite(out))[0]:
+                    row=occ[idx].astype(float)
+                    vp=complex(f(*[np.float64(x) for x in row+eps])); vm=complex(f(*[np.float64(x) for x in row-eps]))
+                    if np.isfinite(vp) and np.isfinite(vm) and abs(vp-vm)<=1e-3*max(1.0,abs(vp),abs(vm)):
+                        out[idx]=(vp+vm)/2
         return np.diag(out)
     def nof(self, x, subs=None):
         out=np.zeros((self.D,self.D),complex)
